@@ -38,13 +38,16 @@ Proof. exact accounting. Qed.
 Print Assumptions C15_handler_accounting.
 
 (* Full statement: "every request whose handler started before or during shutdown had its response written (on a connection the server had
-   not closed)".  It is FALSE of the code (finding closeidle-closes-conn-with-request-in-hand, reproduced on the real server by the harness).
-   The second way it used to fail - the stop check dropping an unflushed pipelined response - is repaired (66dbd41) and modelled as repaired;
-   C15_ex_unflushed_is_flushed_now replays that schedule. *)
-Theorem C15_started_handlers_answered_refuted_closeidle :
-  exists s, reach (mkCfg false false) s /\ sd s = SReturnedNil /\ exists r, In r (conns s) /\ dropped_response r.
-Proof. eapply refuted_spec. exact refuted_closeidle. Qed.
-Print Assumptions C15_started_handlers_answered_refuted_closeidle.
+   not closed)".  It is FALSE of the code (finding closeidle-drops-unflushed-response-of-pipelined-conn, reproduced on the real server by the
+   harness): closeIdleConns closes a connection that is marked idle while the response of its last request is still in the writer because a
+   pipelined request is buffered.  Two other ways in which it used to fail are repaired and modelled as repaired: the stop check dropping an
+   unflushed response (66dbd41) and a request read just before closeIdleConns closed the connection being served on the closed connection
+   (3ea360e); the two examples below replay those schedules. *)
+Theorem C15_started_handlers_answered_refuted :
+  (exists s, reach (mkCfg false false) s /\ sd s = SReturnedNil /\ exists r, In r (conns s) /\ dropped_response r) /\
+  (exists s, reach (mkCfg true false) s /\ sd s = SReturnedNil /\ exists r, In r (conns s) /\ dropped_response r).
+Proof. destruct refuted_closeidle_unflushed as [H1 H2]. split; eapply refuted_spec; eauto. Qed.
+Print Assumptions C15_started_handlers_answered_refuted.
 
 (* It holds on the schedules the guard leaves: at every moment nothing is lost by the server's doing, a finished connection has all its
    started handlers answered (or the client had closed), and so has every connection when Shutdown returns nil. *)
@@ -56,13 +59,13 @@ Proof.
 Qed.
 Print Assumptions C15_started_handlers_answered_guarded.
 
-(* The guard excludes exactly the step the finding is about (pipelining needs no guard any more), and with ReadTimeout set the witness is not a
-   behaviour. *)
+(* The guard excludes exactly the step the finding is about; pipelining by itself needs no guard.  (The guard is sufficient, not necessary:
+   since 3ea360e a connection closed with an unanswered request in hand and an empty writer loses nothing while Shutdown runs.) *)
 Theorem C15_guard_is_tight :
   first_unguarded (mkCfg false false) init unflushed_trace = None /\
-  first_unguarded (mkCfg false false) init closeidle_trace = Some LCloseIdle /\
-  run (mkCfg true false) init closeidle_trace = None.
-Proof. destruct guard_excludes_witnesses as [H1 H2]. split; [exact H1|]. split; [exact H2|exact closeidle_needs_no_deadlines]. Qed.
+  first_unguarded (mkCfg false false) init closeidle_unflushed_trace = Some LCloseIdle /\
+  first_unguarded (mkCfg true false) init closeidle_unflushed_trace_dl = Some LCloseIdle.
+Proof. exact guard_excludes_witnesses. Qed.
 Print Assumptions C15_guard_is_tight.
 
 (* Idle keep-alive connections are closed by the next closeIdleConns pass ... *)
@@ -101,13 +104,20 @@ Example C15_ex_unflushed_is_flushed_now :
   end.
 Proof. exact unflushed_is_flushed_now. Qed.
 
+Example C15_ex_request_in_hand_is_not_served_now :
+  match run (mkCfg false false) init closeidle_trace with
+  | Some s => sd s = SReturnedNil /\ map started (conns s) = [1] /\ map delivered (conns s) = [1] /\ n_lost s = 0
+  | None => False
+  end.
+Proof. exact closeidle_request_in_hand_is_not_served_now. Qed.
+
 (* Shutdown on a server on which Serve was never called returns at once; a context that expires gives an error and resets the stop flag *)
 Example C15_ex_no_listener : run (mkCfg false false) init [LSetStop] = Some (set_sd init SReturnedNil).
 Proof. reflexivity. Qed.
 
 Example C15_ex_ctx_expires :
   match run (mkCfg false false) init
-        [LServeStart; LAccept 0; LOpenInc 0; LSend 0; LRegIdle 0; LSetDeadline 0; LPeekOk 0; LStore0 0; LReadReq 0;
+        [LServeStart; LAccept 0; LOpenInc 0; LSend 0; LRegIdle 0; LSetDeadline 0; LPeekOk 0; LStore0 0; LLoadStop 0; LReadReq 0;
          LSetStop; LCloseListeners; LAcceptFail 0; LCloseDone; LCloseIdle; LReadServing; LReadOpen; LCtxExpire] with
   | Some s => sd s = SReturnedErr /\ stop s = false /\ n_handlers s = 1 /\ doneClosed s = true
   | None => False
